@@ -154,7 +154,14 @@ def run_kernel(ctx, P, fn, stem, isa, maxn):
     bad = None
     miss = None
     runs = 0
-    for ex in extras:
+    # kernels that look at the numeric address of a buffer (alignment prologues) are analysed once per
+    # alignment class: each pointer parameter takes every residue 0..63 while the others stay aligned
+    aligns = [None]
+    if _casts_pointer_to_integer(P, fn):
+        bases = ["b%d" % i for i in con["bufs"]]
+        aligns = [dict((b, (m if b == vb else 0)) for b in bases) for vb in bases for m in range(64)]
+        counts = [c for c in counts if c <= 192]
+    for ex, al in [(e_, a_) for e_ in extras for a_ in aligns]:
         for n in counts:
             args = []
             for i, p in enumerate(fn.params):
@@ -169,6 +176,7 @@ def run_kernel(ctx, P, fn, stem, isa, maxn):
                 else:
                     args.append(U if "*" in p["t"] else 0)
             it = KInterp(P, fn, budget=4000000, max_forks=30000)
+            it.align = al
             try:
                 outs = it.run(args)
             except (Budget, Stop) as exn:
@@ -195,7 +203,9 @@ def run_kernel(ctx, P, fn, stem, isa, maxn):
                                              "masked access with an unknown mask")
                             return runs
                         if bad is None:
-                            bad = (n, ex, i, fn.params[i]["n"], a.lo, a.hi, ext, a.kind, a.node.l)
+                            bad = (n, ex if al is None else "%s misaligned by %s" % (
+                                [fn.params[int(b[1:])]["n"] for b, m in al.items() if m] or ["-"], [m for m in al.values() if m] or [0]),
+                                   i, fn.params[i]["n"], a.lo, a.hi, ext, a.kind, a.node.l)
                     if a.kind == "w":
                         cover.setdefault(i, set()).update(range(max(a.lo, 0), min(a.hi, ext)))
                 for i, (extf, kind, must) in con["bufs"].items():
@@ -215,6 +225,17 @@ def run_kernel(ctx, P, fn, stem, isa, maxn):
                "%s (%s): for every count the whole output extent is written" % (fn.name, isa), miss is None,
                "count=%s: `%s` bytes %s never written" % (miss[0], miss[2], miss[3]) if miss else "")
     return runs
+
+
+def _casts_pointer_to_integer(P, fn, depth=0):
+    for n in fn.body.walk():
+        if n.k in ("CStyleCastExpr", "ImplicitCastExpr") and n.get("ck") == "PointerToIntegral":
+            return True
+        if n.k == "CallExpr" and n.callee and depth < 2:
+            for g in P.by_name.get(n.callee, []):
+                if g.file == fn.file and g.key() != fn.key() and _casts_pointer_to_integer(P, g, depth + 1):
+                    return True
+    return False
 
 
 def _run_match_length(ctx, P, fn, key0):
